@@ -14,6 +14,7 @@ import (
 
 	"gvh/internal/drv"
 	"gvh/internal/rng"
+	"gvh/internal/scratch"
 	"gvh/internal/sx"
 )
 
@@ -464,6 +465,9 @@ func runC12(e *env) error {
 	if err := c12RealPath(e); err != nil {
 		return err
 	}
+	if err := c12RealMixed(e); err != nil {
+		return err
+	}
 	if err := runConsumers(e); err != nil {
 		return err
 	}
@@ -653,5 +657,106 @@ func c12RealPath(e *env) error {
 		}
 	}
 	e.rep.Exhaustive = false
+	return nil
+}
+
+// c12RealMixed: the command line settings (-g) through the REAL configuration stage (parseConverter as a whole, one
+// package load per command line) for an interface converter and a variables block of the same run: every line of the
+// command line is applied to every converter in order, and the first line a converter cannot accept fails THAT
+// converter, naming the command line — lines after it are never silently dropped.
+func c12RealMixed(e *env) error {
+	root := filepath.Join(e.scratch, "c12mixed")
+	tree := scratch.Tree{"go.mod": "module example.org/c12m\n\ngo 1.18\n",
+		"p/types.go": "package p\n\ntype In struct{ A int }\ntype Out struct{ A int }\n",
+		"p/iface.go": "package p\n\n// goverter:converter\ntype Converter interface {\n\tM(source In) Out\n}\n",
+		"p/vars.go":  "package p\n\n// goverter:variables\nvar (\n\tV func(source In) Out\n)\n"}
+	if err := scratch.Write(root, tree); err != nil {
+		return err
+	}
+	raws, err := comments.ParseDocs(comments.ParseDocsConfig{PackagePattern: []string{"./p"}, WorkingDir: root, BuildTags: "goverter"})
+	if err != nil {
+		return fmt.Errorf("c12 mixed: ParseDocs: %v", err)
+	}
+	r := e.r.Fork(1212)
+	n := 60
+	if e.thorough {
+		n = 400 * e.scale
+	}
+	validBools := []string{"skipCopySameType", "ignoreMissing yes", "matchIgnoreCase", "wrapErrors", "useZeroValueOnPointerInconsistency yes", "ignoreUnexported", "enum no",
+		"enum:unknown @ignore", "wrapErrorsUsing example.org/wrap", "update:ignoreZeroValueField:basic"}
+	ifaceOnly := []string{"name Foo", "struct:comment hello world", "output:format function", "output:format struct"}
+	var clis [][]string
+	for _, a := range ifaceOnly {
+		for _, b := range validBools[:4] {
+			clis = append(clis, []string{a, b}, []string{b, a}, []string{a, "bogus"}, []string{a, b, "ignoreMissing maybe"})
+		}
+	}
+	for len(clis) < n {
+		var cli []string
+		for j := 0; j < 1+r.Intn(4); j++ {
+			switch k := r.Intn(10); {
+			case k < 5:
+				cli = append(cli, rng.Pick(r, validBools))
+			case k < 7:
+				cli = append(cli, rng.Pick(r, ifaceOnly))
+			default:
+				cli = append(cli, genSettingLine(r, 0))
+			}
+		}
+		if hasLoaderLine(&settingsCase{CLI: cli}) {
+			continue
+		}
+		clis = append(clis, cli)
+	}
+	clis = clis[:n]
+	var reqs, impl []*sx.Node
+	var descr []map[string]any
+	for _, cli := range clis {
+		convs, errs, err := config.VerifParseEach(&config.Raw{Converters: raws, Global: config.RawLines{Lines: cli, Location: cliLocation}, WorkDir: root, BuildTags: "goverter"})
+		if err != nil {
+			return fmt.Errorf("c12 mixed: %v", err)
+		}
+		for i, raw := range raws {
+			vars := raw.InterfaceName == ""
+			marker := "converter"
+			if vars {
+				marker = "variables"
+			}
+			sc := &settingsCase{Vars: vars, CLI: cli, Conv: []string{marker}}
+			var im *sx.Node
+			if errs[i] != nil {
+				im = lineErrToSx(errs[i], "-", "-")
+			} else if len(convs[i].Methods) == 1 {
+				im = sx.H("ok", commonToSx(&convs[i].Methods[0].Common))
+			} else {
+				im = sx.H("err", sx.A("?"), sx.S(""), sx.A("no-method"))
+			}
+			reqs = append(reqs, settingsReq(len(reqs), sc))
+			impl = append(impl, im)
+			descr = append(descr, map[string]any{"case": sc, "path": "comments.ParseDocs + config.parseConverter (whole converter, interface and variables block in one run)"})
+		}
+	}
+	answers, err := drv.Run(reqs)
+	if err != nil {
+		return err
+	}
+	e.rep.Eval(len(reqs))
+	for i, ans := range answers {
+		var model string
+		if ans.Head() == "ok" && len(ans.L) == 3 {
+			model = sx.H("ok", ans.L[2].L[1]).String()
+		} else {
+			model = ans.String()
+		}
+		e.rep.Nontrivial("mixed:" + reqs[i].String())
+		e.rep.Count("mixed." + impl[i].Head())
+		if model != impl[i].String() {
+			d := descr[i]
+			d["implementation"] = impl[i].String()
+			d["model"] = model
+			d["broken"] = "correspondence C12 (command line through the whole configuration stage): outcome of one converter"
+			e.rep.Violation("", d, false)
+		}
+	}
 	return nil
 }
